@@ -183,6 +183,24 @@ def aliasedInter (tns : String) : Ctor := ⟨fun l => l.filter (fun x => x != tn
 /-- a user of the group that snapshots its wildcard (`##any` ∩ list = the list) -/
 def reader : Ctor := ⟨id, true⟩
 
+/-! #### XPath machinery: one parser / token per component (assertions.py:84-121)
+
+  `XsdAssert.build` creates a parser bound to the assertion of ITS complex type (schema proxy with that base
+  element, `$value` type, namespaces) and parses the test with it.  A build-time cache of parsed tests (seed C09-5)
+  hands the parser of another component out whenever the cache key does not determine the component.  `bindAll`
+  processes the assertions in build order with a cache keyed by `key`; the result says, for every assertion, the
+  component whose typing its parser carries. -/
+
+def bindOne (key : String → String → String) (st : List (String × String) × List (String × String))
+    (a : String × String) : List (String × String) × List (String × String) :=
+  match st.1.lookup (key a.1 a.2) with
+  | some owner => (st.1, st.2 ++ [(a.1, owner)])
+  | none => (st.1 ++ [(key a.1 a.2, a.1)], st.2 ++ [(a.1, a.1)])
+
+/-- `asserts` = (component, test text) in build order ↦ (component, component its parser is bound to) -/
+def bindAll (key : String → String → String) (asserts : List (String × String)) : List (String × String) :=
+  (asserts.foldl (bindOne key) ([], [])).2
+
 /-- `##defined` as /repo decides it: the declaration exists and lives in the wildcard's document -/
 def definedDoc (declared : Name → Bool) (docOf : Name → Nat) (wdoc : Nat) (n : Name) : Bool :=
   declared n && docOf n == wdoc
